@@ -425,8 +425,9 @@ def oracle_c01(nodes, ev, viol):
             pn = nodes.get(p)
             same_stage_observer = node['repeat'] and pn is not None and pn['stage'] == node['stage']
             if same_stage_observer:
-                # launched, final, or irrevocably on its way to a final state without ever launching (finish() called)
-                if not (pstate in FINAL or psub or finish_called_at.get(p, seq) < seq):
+                # the exception of the statement: the subject has been launched (or is final already). A subject that was
+                # put down before it was ever submitted has not been launched
+                if not (pstate in FINAL or psub):
                     viol.append({'property': 'C01', 'sig': 'i:observer-submitted-before-subject-launched',
                                  'detail': {'consumer': ref, 'producer': p, 'producer_state': pstate}})
                 # failed/shut-down subject: judged at the scheduling decision, not at the submission that follows it
@@ -469,8 +470,7 @@ def oracle_c01(nodes, ev, viol):
         for p in node['preds']:
             pn = nodes[p]
             if node['repeat'] and pn['stage'] == node['stage']:
-                ok = ((p in submitted_at and submitted_at[p] < e[0]) or (p in final_at and final_at[p] < e[0])
-                      or finish_called_at.get(p, e[0]) < e[0])
+                ok = (p in submitted_at and submitted_at[p] < e[0]) or (p in final_at and final_at[p] < e[0])
                 sig = 'i:observer-task-before-subject-launched'
             else:
                 ok = p in final_at and final_at[p] < e[0]
@@ -550,6 +550,7 @@ def oracle_c02(nodes, ev, outcomes, states_end, states_settled, stop, viol, rec,
         if len(set(lst)) > 1:
             V('state:two-final-states', {'component': n, 'states': lst})
     # 2./3. model
+    launched = set(e[3] for e in ev if e[2] == 'submit')  # ComponentState.run() was called (not: put down unlaunched)
     model = {}
     unrecoverable = []
     for n in topo(nodes):
@@ -567,7 +568,8 @@ def oracle_c02(nodes, ev, outcomes, states_end, states_settled, stop, viol, rec,
         cand = None
 
         def soft_edge(p):  # same-stage subject of a repeating observer: its fate is undefined at the observer's launch
-            return nd['repeat'] and nodes[p]['stage'] == nd['stage']
+            # (a subject that was put down without ever being launched gives the observer nothing to start on: hard)
+            return nd['repeat'] and nodes[p]['stage'] == nd['stage'] and p in launched
 
         failed_preds = [p for p, s in pst.items() if isinstance(s, str) and s == 'failed']
         if any(not soft_edge(p) for p in failed_preds):
@@ -582,7 +584,7 @@ def oracle_c02(nodes, ev, outcomes, states_end, states_settled, stop, viol, rec,
                 nonrep = [p for p in nd['preds'] if p not in rep]
 
                 def is_soft(p):  # same-stage subject of a repeating observer: undefined at its launch
-                    return nd['repeat'] and nodes[p]['stage'] == nd['stage']
+                    return soft_edge(p)
 
                 hard_nonrep = any(p in shut and not is_soft(p) for p in nonrep)
                 hard_rep = rep and all(p in shut and not is_soft(p) for p in rep)
@@ -592,7 +594,7 @@ def oracle_c02(nodes, ev, outcomes, states_end, states_settled, stop, viol, rec,
                         or any(p in maybe_shut for p in nonrep):
                     cand = 'either'
             else:
-                hard = [p for p in shut if not (nd['repeat'] and nodes[p]['stage'] == nd['stage'])]
+                hard = [p for p in shut if not soft_edge(p)]
                 soft = [p for p in shut if p not in hard] + maybe_shut
                 if hard:
                     cand = {'component_shutdown'}
